@@ -331,7 +331,10 @@ PARTS = {
 HOOK_COMMITS = []
 NOTES = ("Every claim is bounded: 'holds' means unsat within the stated bound. Exit 3 + INCONCLUSIVE lines mean the solver or the "
          "encoder could not decide; that is never reported as success. See DESIGN.md.")
-NOT_APPLICABLE = {}
+NOT_APPLICABLE = {
+    "C20": "watch mode is about interleavings of timer goroutines, fsnotify events and the process-global cwd; the gosym executor is sequential (no goroutines/channels/select/timers), "
+           "so the real dedupLoop/generateInWatchMode cannot be executed symbolically and an event-interleaving abstraction would decide a model, not the code (DESIGN I.6)",
+}
 
 CLAIMS = {
     "C08": dict(text="Bounded symbolic execution (gosym) of the complete real Python generator for a two-namespace model under every generateNDJson / has-protocols combination: "
